@@ -318,6 +318,22 @@ def run_sizes(ctx):
                  "_site": "size:pbes2-password", "_why": why + "PBES2 password key", "_wrap": PBES2[0]})
         x["_must_refuse" if over else "_must_accept"] = True
         ops.append(("jwe.enc", x))
+    # PBES2 password given as a JSON string (what `jose jwe enc -p` hands over): same 1024-byte bound, wrap and unwrap
+    tokp = ctx.real([("jwe.enc", {"jwe": {"protected": {"alg": PBES2[0], "enc": "A128GCM", "p2c": 1000}}, "jwk": "p" * 1024, "pt": "00", "rand": rng.randbytes(120).hex()})])[0]
+    for n in (1023, 1024, 1025, 1026, 2048, 4096, 65536):
+        over = n > KEYMAX
+        for w in PBES2:
+            x = lim({"jwe": {"protected": {"alg": w, "enc": "A128GCM", "p2c": 1000}}, "jwk": "p" * n, "pt": "00", "rand": rng.randbytes(120).hex(),
+                     "_site": "size:pbes2-password", "_why": "%d-character PBES2 password (JSON string), wrap with %s" % (n, w), "_wrap": w})
+            x["_must_refuse" if over else "_must_accept"] = True
+            ops.append(("jwe.enc", x))
+        if tokp.get("ok"):
+            x = lim({"jwe": tokp["jwe"], "jwk": "p" * n, "rand": "00" * 64, "_site": "size:pbes2-password", "_why": "%d-character PBES2 password (JSON string), unwrap" % n})
+            x["_must_accept" if n == 1024 else "_must_refuse"] = True
+            ops.append(("jwe.dec_jwk", x))
+            x = lim({"jwe": tokp["jwe"], "jwk": {"kty": "oct", "k": sized(n, rng)}, "rand": "00" * 64, "_must_refuse": True, "_site": "size:pbes2-password",
+                     "_why": "%d-byte PBES2 password key, unwrap" % n})
+            ops.append(("jwe.dec_jwk", x))
     # wrapping a caller-supplied content key of 1023..1041 and more bytes with every family that wraps through a fixed buffer
     for n in sizes + [1032, 1040, 1041]:
         cek = {"kty": "oct", "k": sized(n, rng)}
